@@ -202,7 +202,7 @@ func (f *Function) String() string {
 // Append a buffer with a representation of the Object.
 func (f *Function) Append(b []byte) []byte {
 	b = append(b, '(')
-	b = printer.Append(b, Symbol(f.Name), 0)
+	b = printer.Append(b, Symbol(FuncPrintName(f)), 0)
 	for _, a := range f.Args {
 		b = append(b, ' ')
 		b = Append(b, a)
@@ -270,7 +270,7 @@ func (f *Function) GetName() string {
 // LoadForm returns a form that can be evaluated to create the object.
 func (f *Function) LoadForm() Object {
 	form := make(List, len(f.Args)+1)
-	form[0] = Symbol(f.Name)
+	form[0] = Symbol(FuncPrintName(f))
 	for i, a := range f.Args {
 		if a != nil {
 			if f.SkipArgEval(i) {
@@ -364,8 +364,14 @@ func CompileList(list List) (f Object) {
 					return list
 				}
 				f = fi.Create(list[1:])
+				if funk, ok := f.(Funky); ok {
+					funk.setPkg(fi.Pkg)
+				}
 			} else if fi := CurrentPackage.funcs[name]; fi != nil {
 				f = fi.Create(list[1:])
+				if funk, ok := f.(Funky); ok {
+					funk.setPkg(fi.Pkg)
+				}
 			} else {
 				lc := Lambda{
 					Doc: &FuncDoc{
@@ -480,6 +486,26 @@ func MustBeString(arg Object, name string) (str string) {
 
 func (f *Function) setPkg(p *Package) {
 	f.Pkg = p
+}
+
+// FuncPrintName returns the name a call of the function is written with: the
+// plain name when that names the function from the current package,
+// otherwise the name qualified with the function's package so the written
+// form reads back as a call of the same function.
+func FuncPrintName(f Funky) string {
+	name := f.GetName()
+	pkg := f.GetPkg()
+	if pkg == nil || pkg == CurrentPackage {
+		return name
+	}
+	fi := pkg.funcs[name]
+	if fi == nil || CurrentPackage.funcs[name] == fi {
+		return name
+	}
+	if fi.Export {
+		return pkg.Name + ":" + name
+	}
+	return pkg.Name + "::" + name
 }
 
 // GetPkg returns the package the function was defined in.
